@@ -1,6 +1,6 @@
 import ITree.Lemmas.KTrace
 import ITree.Lemmas.KHistory
-import ITree.Model.Lists
+import ITree.Lemmas.ListOps
 /-!
 # C20 — the expiring collections hand only live keys to the caller's comparison code
 
@@ -64,38 +64,16 @@ theorem C20_history {c : Nat} {st : St V} {S : List (Ent V)} {last : Option Int}
 
 /-! ### the sorted-list variant: the purge precedes every search -/
 
-/-- invariant of `KeyExpList`: the cached earliest expiration is a lower bound -/
-def KL.Inv (s : KL V) : Prop := ∀ e ∈ s.buf, s.minExp ≤ e.exp
-
 /-- after `clear_expired(t)` the buffer — the only thing the binary search can touch — holds live
 entries only, and no live entry was dropped -/
 theorem C20_list_purge (s : KL V) (t : Int) (h : s.Inv) :
     (∀ e ∈ (s.clearExpired t).buf, t < e.exp) ∧ (s.clearExpired t).buf = live t s.buf ∧
       (s.clearExpired t).Inv := by
-  simp only [KL.clearExpired]
-  split
-  · rename_i hlt
-    have hall : ∀ e ∈ s.buf, t < e.exp := fun e he => by have := h e he; omega
-    exact ⟨hall, (live_eq_self hall).symm, h⟩
-  · refine ⟨fun e he => by simpa using (List.mem_filter.mp he).2, rfl, ?_⟩
-    intro e he
-    simp only at he ⊢
-    -- the fold computes a lower bound of the kept expirations
-    have : ∀ (l : List (Ent V)) (m : Int), (∀ e ∈ l, l.foldl (fun m e => min m e.exp) m ≤ e.exp) ∧
-        l.foldl (fun m e => min m e.exp) m ≤ m := by
-      intro l
-      induction l with
-      | nil => intro m; simp
-      | cons x xs ih =>
-        intro m
-        obtain ⟨h1, h2⟩ := ih (min m x.exp)
-        refine ⟨?_, by simp only [List.foldl_cons]; omega⟩
-        intro e he
-        simp only [List.foldl_cons]
-        rcases List.mem_cons.mp he with rfl | he
-        · omega
-        · exact h1 e he
-    exact (this _ s.maxE).1 e he
+  obtain ⟨h1, h2, _⟩ := h.clearExpired t
+  refine ⟨?_, h1, h2⟩
+  intro e he
+  rw [h1] at he
+  simpa using (List.mem_filter.mp he).2
 
 /-! non-vacuity: an expired entry on the search path is removed before any comparison with it -/
 example : (((St.new 0 : St Nat).kInsert ⟨2, 1, 20⟩ 0).bind fun (s, _) =>
